@@ -146,7 +146,7 @@ pub fn c03_meta(tier: Tier) -> Meta {
     let (dense, nmax, cases) = c03_params(tier);
     basic(
         format!(
-            "Well-shaped calls: every n in 0..={dense} x 4 planners x f32/f64 x 2 directions x 4 entry points x chunk counts cycling through 1..8, plus {cases} proptest-drawn structured lengths up to {nmax} (every AVX radix x every row residue mod 4, Rader/Bluestein primes, prime powers, smooth numbers ...) x chunks 1..8. Every caller-visible buffer (data, output, scratch of EXACTLY the advertised length) lives in its own mmap'ed region flush against a PROT_NONE guard page (end-flush orientation, and start-flush orientation for a second pass), so a one-element over-read or over-write in the optimised build is a SIGSEGV in the worker, which the parent turns into a violation with a shrunk replay. \
+            "Well-shaped calls: every n in 0..={dense} x 4 planners x f32/f64 x 2 directions x 4 entry points x chunk counts cycling through 1..8, plus {cases} proptest-drawn structured lengths up to {nmax} (every AVX radix x every row residue mod 4, Rader/Bluestein primes, prime powers, smooth numbers ...) x chunks 1..8, plus EVERY prime with 11-smooth p-1 (AVX2 Rader) and with 23-smooth p-1 (portable Rader) up to 2^17 (quick) / 2^20 (thorough). Every caller-visible buffer (data, output, scratch of EXACTLY the advertised length) lives in its own mmap'ed region flush against a PROT_NONE guard page (end-flush orientation, and start-flush orientation for a second pass), so a one-element over-read or over-write in the optimised build is a SIGSEGV in the worker, which the parent turns into a violation with a shrunk replay. \
              Ill-shaped calls: the C09 shape matrix for n <= 64 and sampled lengths, same guard-paged buffers; must end in a panic, never a fault. \
              The same cases also run on a build with debug assertions and overflow checks, where rustfft's 28 bounds debug_assert!s in its unsafe accessors turn an index error into a panic that is classified as an out-of-bounds witness. \
              Transforms assembled from public constructors are covered by C12 with the same check. Thorough adds libFuzzer targets under AddressSanitizer (see fuzz/). \
@@ -207,6 +207,29 @@ pub fn c03_worker(ctx: &mut Ctx) {
         }
         if ctx.done() {
             return;
+        }
+    }
+    // complete sparse families at larger bounds: every prime with 11-smooth p-1 (vectorised AVX2 Rader: gather indices
+    // computed by vector modular arithmetic) and every prime with 23-smooth p-1 (portable Rader)
+    {
+        let bound = ctx.tier.pick(1usize << 17, 1 << 20);
+        let fams = Families::new(bound);
+        for (fname, planners) in [("prime_rader_11smooth", [Planner::Avx, Planner::Auto]), ("prime_rader_23smooth", [Planner::Scalar, Planner::Sse])] {
+            let list: Vec<usize> = fams.fams.iter().find(|f| f.0 == fname).map(|f| f.1.clone()).unwrap_or_default();
+            for &q in list.iter().rev() {
+                if q <= dense || !ctx.mine() {
+                    continue;
+                }
+                for (pi, planner) in planners.iter().enumerate() {
+                    for ty in TYS {
+                        let e = ENTRIES[(q / 2 + pi + ty as usize) % 4];
+                        ctx.exec(&Case::new("C03", "guard", *planner, ty, DIRS[(q / 4) % 2], q).with_entry(e).with_chunks(1 + (q / 8) % 2).with_input(InputSpec::fam("uniform", q as u64)).with_p(vec![0, 0]));
+                    }
+                }
+                if ctx.done() {
+                    return;
+                }
+            }
         }
     }
     let fams = Families::new(nmax);
@@ -323,7 +346,7 @@ pub fn c07_worker(ctx: &mut Ctx) {
                             &Case::new("C07", "chunks", planner, ty, dir, n)
                                 .with_entry(*entry)
                                 .with_chunks(k)
-                                .with_input(InputSpec::fam("uniform", n as u64 * 5 + ei as u64))
+                                .with_input(InputSpec::fam(["uniform", "silence_mix", "periodic", "spikes"][(n + ei) % 4], n as u64 * 5 + ei as u64))
                                 .with_p(vec![keep, filler]),
                         );
                         // the smallest even / odd counts always
@@ -333,7 +356,7 @@ pub fn c07_worker(ctx: &mut Ctx) {
                                     &Case::new("C07", "chunks", planner, ty, dir, n)
                                         .with_entry(*entry)
                                         .with_chunks(k2)
-                                        .with_input(InputSpec::fam("gaussish", n as u64 + 1))
+                                        .with_input(InputSpec::fam(if (n + k2) % 3 == 0 { "silence_mix" } else { "gaussish" }, n as u64 + 1))
                                         .with_p(vec![(n % k2) as i64, 1]),
                                 );
                             }
@@ -354,7 +377,7 @@ pub fn c07_worker(ctx: &mut Ctx) {
             Case::new("C07", "chunks", PLANNERS[pl], TYS[ty], DIRS[dir], n)
                 .with_entry(ENTRIES[en])
                 .with_chunks(k)
-                .with_input(InputSpec::fam(if seed % 3 == 0 { "wide" } else { "uniform" }, seed))
+                .with_input(InputSpec::fam(["wide", "uniform", "silence_mix", "periodic", "uniform", "const"][(seed % 6) as usize], seed))
                 .with_p(vec![keep, filler])
         },
     );
@@ -398,7 +421,7 @@ pub fn c08_worker(ctx: &mut Ctx) {
                                 &Case::new("C08", "scratch", planner, ty, dir, n)
                                     .with_entry(*entry)
                                     .with_chunks(chunks)
-                                    .with_input(InputSpec::fam("uniform", n as u64 + 3))
+                                    .with_input(InputSpec::fam(["uniform", "periodic", "silence_mix", "const", "tone", "impulse", "spikes", "alt"][(n + chunks + ei) % 8], n as u64 + 3))
                                     .with_p(vec![0, 1, 1]),
                             );
                         }
@@ -429,7 +452,7 @@ pub fn c08_worker(ctx: &mut Ctx) {
             Case::new("C08", "scratch", PLANNERS[pl], TYS[ty], DIRS[dir], n)
                 .with_entry(EXPLICIT_ENTRIES[en])
                 .with_chunks(chunks)
-                .with_input(InputSpec::fam("uniform", seed))
+                .with_input(InputSpec::fam(["uniform", "periodic", "silence_mix", "const", "tone", "spikes"][(seed % 6) as usize], seed))
                 .with_p(vec![SLACK[sl], sf, of])
         },
     );
